@@ -54,8 +54,12 @@ class TokenSource:
     def reset(self):
         self.counter = itertools.count(1)
         self.issued = []
+        self.forced = None
 
     def token_hex(self, n=32):
+        if getattr(self, "forced", None) is not None and n <= 2:
+            # a scenario forces the short tokens (connection ids) to collide, as a birthday collision among many connections would
+            return self.forced[: 2 * n]
         i = next(self.counter)
         # looks random enough for code that only needs distinctness; recorded for C15
         import hashlib
